@@ -29,9 +29,10 @@ var Def = driver.PropDef{
 		"R1 no read-ahead in waitRdbDump (the stream is only read through Read calls with a 1-byte buffer, never wrapped in a buffered reader, and not read any more once the size was announced); " +
 		"R2 one buffered reader per connection (sendPSyncCmd/dump/Sync create exactly one bufio reader and hand that same value to the PSYNC handshake, the RDB copy and the command phase; runIncrementalSync creates a new reader only after the connection was replaced and never copies through a stale one; the raw connection is returned by sendCmd/sendSyncCmd only after a non-zero size was received); " +
 		"R3 bounded copy (Iocopy reads into at most max bytes, writes exactly the prefix read and returns its length; the RDB loops count exactly the announced size, pass the remaining byte count as max, subtract/add the result to the same counter, loop until it is exhausted and flush the dump writer); " +
-		"R4 header framing (keep-alive tick only for '\\n' before any header byte and without storing it, header complete only at CR LF, size parsed from the bytes between '$' and CR LF and sent unchanged); " +
+		"R4 header framing (keep-alive tick only for '\\n' before any header byte and without storing it, header complete only at CR LF, size parsed from the bytes between '$' and CR LF and sent unchanged, by a send that waits for the receiver or is repeated until taken - never one that gives up and lets the goroutine end); " +
 		"R5 PSYNC reply (case-insensitive keywords; CONTINUE returns the caller's run id and offset, FULLRESYNC returns field 1 / ParseInt(field 2) and reads the RDB header from the reader that decoded the reply; sendPSyncCmd stores the announced offset, hands the announced run id on and starts the copy with the announced size; every caller of SendPSyncContinue looks at the wait channel it returns, since a non-nil channel means an RDB precedes the commands); " +
-		"R6 stream copy (pSyncPipeCopy writes exactly p[:n] of every successful read and counts n only after, and always after, the write succeeded).",
+		"R6 stream copy (pSyncPipeCopy writes exactly p[:n] of every successful read and counts n only after, and always after, the write succeeded); " +
+		"R7 dump file (the writer handed to dumpRDBFile wraps a file that the open call - followed by value flow through the module's helpers to the os call, flags evaluated as constants - creates or truncates, so it holds nothing when the copy starts).",
 	NotDecided: "behaviour under every TCP fragmentation (follows from R1-R3 with bufio semantics trusted), pipe capacity interplay (C09), the reply guards for answers outside the property's premise ('$' marker, n > 0) beyond recording them.",
 	Trusted:    []string{"go/parser, go/types, go/cfg (x/tools v0.29.0)", "bufio.Reader, io.Reader/io.Writer contracts, strconv, strings"},
 	Run:        Run,
@@ -89,11 +90,12 @@ func Run(c *core.Ctx) {
 	r.runIncrementalSync()
 	r.pipeCopy()
 	r.dumpSide()
+	r.dumpFile()
 	r.syncEntry()
 	r.rawConn(pkgR, "dbDumper", "sendCmd")
 	r.rawConn(pkgS, "DbSyncer", "sendSyncCmd")
 	// instance counts confirmed on the pinned tree: fewer is UNDECIDED, never a vacuous pass
-	flow.ExpectAll(c, map[string]int{"R1.header": 2, "R2.reader": 19, "R3.bounded": 13, "R4.frame": 11, "R5.reply": 7, "R5.use": 10, "R6.copy": 6})
+	flow.ExpectAll(c, map[string]int{"R1.header": 2, "R2.reader": 19, "R3.bounded": 13, "R4.frame": 12, "R5.reply": 7, "R5.use": 10, "R6.copy": 6, "R7.dumpfile": 2})
 }
 
 // ---- helpers
